@@ -9,6 +9,9 @@ where the test is implied by 'dt > te - t', i.e. R = te - t - X with every X pro
 std::max(.., c) with a literal c >= 0).  On the true edge dt becomes te - t; on the false edge dt <= R <= te - t.
 Paths on which the loop's 'end' flag is set leave the loop and are not attempts.
 
+LOOP-EXIT-AT-END: execute returns normally only with its 'end' flag set; the only other way out of the loop (the budget of sub-steps)
+raises, and the budget is positive (setter and default).
+
 Not decided: that imposed loadings equal their evolutions at the output times (numerical), that linear evolutions interpolate
 (numerical), and the non-dynamic case, where dt is only ever halved and the steps land on te by binary subdivision (up to the
 loop's own tolerance t_eps) - no clamp exists there and none is demanded."""
@@ -66,6 +69,88 @@ def nonneg(f, sid, depth=0):
                     if dd.get("declId") == n.get("declId") and "init" in dd and "const" in (dd.get("type") or ""):
                         return nonneg(f, dd["init"], depth + 1)
     return False
+
+
+def loop_exit_rule(rep, x):
+    """LOOP-EXIT-AT-END: GenericSolver::execute returns normally only with its 'end' flag set (the flag is set when t reached te):
+    the other way out of the time loop, the budget of sub-steps, must raise.  Facts: 'end', and 'full' (subStep == o.mSubSteps);
+    raise_if(c, ...) continues only when c is false; ++subStep forgets 'full'; an assignment of end forgets 'end'.  On entry 'full' is
+    false because the setter and the default give a positive budget (checked below on SchemeBase)."""
+    def atom(f_, s):
+        n = f_.stmts.get(s)
+        if n is None:
+            return None
+        if n["k"] == "DeclRefExpr" and n.get("name") == "end" and n.get("local"):
+            return (("end",), False)
+        bo = f_.binop(s)
+        if bo and bo[0] in ("==", "!="):
+            ts = sorted(f_.text(f_.strip(k)) for k in bo[1:])
+            if any("mSubSteps" in t for t in ts) and any(t == "subStep" for t in ts):
+                return (("full",), bo[0] == "!=")
+        return None
+
+    def el(st, b, i, e):
+        if "s" not in e:
+            return (st,)
+        s = e["s"]
+        n = x.stmts[s]
+        fx = dict(st)
+        if n["k"] == "CallExpr" and (n.get("callee") or "").split("<")[0].endswith("raise_if") and n.get("args"):
+            f2 = refine(x, x.strip(n["args"][0]), False, fx, atom)
+            if eval3(x, n["args"][0], fx, atom) is True:
+                return ()
+            return (tuple(sorted(f2.items())),)
+        if n["k"] == "UnaryOperator" and n.get("op") in ("++", "--") and x.text(x.strip(x.kids(s)[0])) == "subStep":
+            fx.pop(("full",), None)
+            return (tuple(sorted(fx.items())),)
+        if n["k"] == "BinaryOperator" and n.get("op") == "=" and x.text(x.strip(x.kids(s)[0])) == "end":
+            fx.pop(("end",), None)
+            return (tuple(sorted(fx.items())),)
+        if n["k"] == "DeclStmt":
+            for dd in n["decls"]:
+                if dd.get("name") == "end" and "init" in dd:
+                    v = x.stmts[x.strip(dd["init"])]
+                    if v["k"] == "CXXBoolLiteralExpr":
+                        fx[("end",)] = bool(v["value"])
+                        return (tuple(sorted(fx.items())),)
+        return (st,)
+
+    def ed(st, b, succ, pol):
+        fx = branch(x, b, pol, dict(st), atom)
+        return () if fx is None else (tuple(sorted(fx.items())),)
+    IN, _OUT = forward(x, ((( ("full",), False),),), el, ed)
+    rep.count("states at the normal exit of execute", len(IN.get(x.exit, ())))
+    bad = [dict(st) for st in IN.get(x.exit, ()) if dict(st).get(("end",)) is not True]
+    if bad:
+        rep.fail("LOOP-EXIT-AT-END@mtest::GenericSolver::execute", "%s: GenericSolver::execute can return normally with its end flag not set (facts at the "
+                 "exit: %s): the time loop is left because the budget of sub-steps is spent, without an error, and the caller writes the "
+                 "state of an earlier time under the requested time" % (rel(x.loc), bad[0]))
+    else:
+        rep.ok("execute returns normally only when its end flag is set; leaving the loop on the sub-step budget raises")
+    # the budget is positive
+    d = cfgdump([os.path.join(REPO, "mtest/src/SchemeBase.cxx")], os.path.join(OUT, "C48", "dump2"),
+                funcs=r"^mtest::SchemeBase::(setMaximumNumberOfSubSteps|completeInitialisation)$", root=REPO)
+    fs = {f.qname.rsplit("::", 1)[-1]: f for f in load_functions(d) if f.parent is None}
+    ok1 = ok2 = False
+    g = fs.get("setMaximumNumberOfSubSteps")
+    if g is not None:
+        for n in g.stmts.values():
+            if n["k"] == "CallExpr" and (n.get("callee") or "").split("<")[0].endswith("raise_if") and n.get("args"):
+                t = g.text(g.strip(n["args"][0])).replace(" ", "")
+                if t in ("(i==0)", "(0==i)", "(i<1)", "(i<=0)"):
+                    ok1 = True
+    g = fs.get("completeInitialisation")
+    if g is not None:
+        for s_, n in g.stmts.items():
+            if n["k"] == "BinaryOperator" and n.get("op") == "=" and "mSubSteps" in g.text(g.strip(g.kids(s_)[0])):
+                v = g.stmts[g.strip(g.kids(s_)[1])]
+                if v["k"] == "IntegerLiteral" and int(v["value"]) > 0:
+                    ok2 = True
+    if ok1 and ok2:
+        rep.ok("the budget of sub-steps is positive: the setter rejects 0 and the default is a positive literal")
+    else:
+        rep.fail("SUBSTEP-BUDGET-POSITIVE@mtest::SchemeBase", "the budget of sub-steps may be 0 (setter check: %s, positive default: %s): execute would "
+                 "return at once without having reached the requested time" % (ok1, ok2))
 
 
 def run(tier):
@@ -206,6 +291,7 @@ def run(tier):
     for s in sorted(sites["grow"]):
         if not any(src == s for _a, src in bad):
             rep.ok("%s: '%s' reaches the next attempt only through the clamp" % (rel(x.short_loc(s)), x.text(s)))
+    loop_exit_rule(rep, x)
     rep.floor("statements that may make t + dt exceed te", 3)
     rep.floor("clamps dt = te - t", 1)
     rep.floor("attempt call sites", 1)
